@@ -151,6 +151,28 @@ def gen_decomp_prog(r, w):
     return ";".join(ops)
 
 
+def gen_order_prog(r, w):
+    """producers that sort their result (symb_evaluate, mul of two sums, normalize phase 1) feeding the merge
+    of add, then the decompositions: a product term whose first variable is below a bare variable v, the
+    bare variable added again from the other side"""
+    M = 1 << w
+    a, b, v = sorted(r.sample(VARS, 3))
+    z = r.choice([x for x in VARS if x not in (a, b, v)])
+    ops = ["var:0:%d" % a, "var:1:%d" % b, "mul:2:%s" % r.choice(["0:1", "1:0"])]
+    how = r.below(3)
+    if how == 0:          # substitution z := a*b in z + v
+        ops += ["var:3:%d" % z, "var:4:%d" % v, "add:5:%s" % r.choice(["3:4", "4:3"]), "sym:6:5:id:%d=2" % z]
+    elif how == 1:        # (a + 1) * (b + v): both operands have two parts
+        ops += ["val:3:1", "add:3:0:3", "var:4:%d" % v, "add:4:1:4", "mul:6:%s" % r.choice(["3:4", "4:3"])]
+    else:                 # normalisation that has to re-sort: 2^(w-1) * a*a*b + v
+        ops += ["val:3:%d" % (M >> 1), "mul:3:3:0", "mul:3:3:2", "var:4:%d" % v, "add:5:3:4", "norm:6:5"]
+    ops += ["val:7:%d" % r.choice([1, 2, 3, M - 1, (M >> 1) + 1]), "var:4:%d" % v, "mul:7:7:4", "add:5:%s" % r.choice(["6:7", "7:6"])]
+    for x in (v, a, b):
+        ops += ["pincof:5:%d" % x, "incof:5:%d" % x, "prodof:5:%d" % x]
+    ops += ["cpart:5", "spincof:4:5:%d" % v, "add:3:4:5", "pincof:3:%d" % v, "norm:2:5", "pincof:2:%d" % v, "add:1:5:5", "pincof:1:%d" % v]
+    return ";".join(ops)
+
+
 def gen_envs(r, w):
     M = 1 << w
     envs = [[0] * 7]
@@ -320,7 +342,7 @@ def run(res):
         w = r.choice([8, 8, 16, 32, 64])
         envs = gen_envs(r, w)
         k = r.random()
-        cases.append((w, gen_norm_prog(r, w) if k < 0.3 else gen_decomp_prog(r, w) if k < 0.45 else gen_prog(r, w), envs))
+        cases.append((w, gen_norm_prog(r, w) if k < 0.3 else gen_decomp_prog(r, w) if k < 0.42 else gen_order_prog(r, w) if k < 0.5 else gen_prog(r, w), envs))
     lines = ["expr|%d|%s|%s" % (w, p, "/".join(",".join(str(x) for x in e) for e in envs)) for (w, p, envs) in cases]
     model = C.run_lines(driver, lines)
     shape_bad = [l for l, m in zip(lines, model) if m.endswith("SHAPE-VIOLATED")]
